@@ -1832,7 +1832,11 @@ def collapse_choice(alts):
     """Choice of alternatives, or the common value when all alternatives agree (deltas dropped: sound)"""
     f0 = fp(alts[0][1])
     if all(fp(x) == f0 for _d, x in alts[1:]):
-        return alts[0][1]
+        if all(not d for d, _x in alts):
+            return alts[0][1]
+        if isinstance(alts[0][1], Choice):
+            return alts[0][1] if False else Choice([((("or", tuple(tuple(d) for d, _x in alts)),) + tuple(d2), x2) for d2, x2 in alts[0][1].alts])
+        return Choice([((("or", tuple(tuple(d) for d, _x in alts)),), alts[0][1])])
     flat = []
     for d, x in alts:
         if isinstance(x, Choice):
